@@ -64,7 +64,39 @@ fn verif_skip_take<'a>(v: &'a Xvec, a: usize, n: usize) -> (r: XvecIter<'a>)
 { unimplemented!() }
 // ASSUMED: slice_str (chars().skip().take().collect(): string code outside the Verus subset)
 #[verifier::external_body] fn slice_str(s: &Xstr, start: isize, end: isize) -> String { unimplemented!() }
-impl From<String> for Cell { #[verifier::external_body] fn from(x: String) -> (r: Cell) ensures r is Str { unimplemented!() } }
+// `Cell::Str(Xstr::from(x))` (src/cell.rs): ASSUMED one-liner over the arcstr conversion
+impl From<String> for Cell { #[verifier::external_body] fn from(x: String) -> (r: Cell) ensures r is Str && xstr_chars(r->Str_0) == x@ { unimplemented!() } }
+impl core::ops::Deref for Xstr { type Target = str; #[verifier::external_body] fn deref(&self) -> (r: &str) ensures r@ == xstr_chars(*self) { unimplemented!() } }
+//@include preamble/cell_depth.rs
+// the printer (fmt::Debug of a cell under its formatting tag): ASSUMED a function of the cell, always succeeds
+pub uninterp spec fn fmt_chars(val: Cell) -> Seq<char>;
+impl State {
+    #[verifier::external_body] pub fn format_cell(&self, val: &Cell) -> (r: Xresult1<String>)
+        ensures r is Ok && r->Ok_0@ == fmt_chars(*val) { unimplemented!() }
+}
+// what concat / join denote: strings and (nested) vectors are spliced - looked at THROUGH their tags -, anything else
+// is printed; the separator goes between the elements of every level
+spec fn piece(x: Cell, sep: Option<Xstr>) -> Seq<char>
+    decreases cell_depth(x), 2nat, 0int
+    via piece_dec
+{
+    match strip(x) {
+        Cell::Vector(v2) => joined(v2, v2@.len() as int, sep),
+        Cell::Str(s) => xstr_chars(s),
+        _ => fmt_chars(x),
+    }
+}
+spec fn joined(v: Xvec, n: int, sep: Option<Xstr>) -> Seq<char>
+    decreases cell_depth(Cell::Vector(v)), 1nat, n
+    via joined_dec
+{
+    if n <= 0 || n > v@.len() { Seq::empty() } else {
+        joined(v, n - 1, sep) + piece(v@[n - 1], sep) + (if sep is Some && n < v@.len() { xstr_chars(sep->0) } else { Seq::<char>::empty() })
+    }
+}
+#[via_fn] proof fn piece_dec(x: Cell, sep: Option<Xstr>) { axiom_depth_strip(x); }
+#[via_fn] proof fn joined_dec(v: Xvec, n: int, sep: Option<Xstr>) { if 0 < n <= v@.len() { axiom_depth_elem(v, n - 1); } }
+
 pub assume_specification [ <isize>::unsigned_abs ] (a: isize) -> (r: usize)
     ensures r == (if a < 0 { -(a as int) } else { a as int });
 
@@ -74,6 +106,7 @@ impl Cell {
 //@use cell.fns Cell::to_isize assumed
 //@use cell.fns Cell::to_usize assumed
 //@use cell.fns Cell::to_vec assumed
+//@use cell.fns Cell::to_xstr assumed
 //@use cell.fns Cell::vec assumed
 //@use cell.fns Cell::to_map assumed
 //@use cell.fns Cell::tags assumed
@@ -150,6 +183,9 @@ impl State {
 //@use coll.fns ::core_word_unbox
 //@use coll.fns ::collect_tag_map
 //@use coll.fns ::foreach_init
+//@use coll.fns ::join_str_vec
+//@use coll.fns ::core_word_concat
+//@use coll.fns ::core_word_join
 //@use coll.fns ::core_word_counter_i
 //@use coll.fns ::core_word_counter_j
 //@use coll.fns ::core_word_counter_k
